@@ -343,6 +343,10 @@ func (x *exec) alloc(st *pstate, in *ssa.Alloc) {
 		return
 	}
 	l := &Loc{Kind: LRoot, Ref: ref, Root: et, fresh: true}
+	if isGoStruct(et) {
+		x.p.D.AddFunc("rbase", smt.Int, smt.Int)
+		st.assume(smt.Eq(smt.App("rbase", smt.Int, ref), ref), "a new object is its own allocation")
+	}
 	x.env.Store(st.heap, l, x.p.T.Zero(et))
 	x.set(st, in, l)
 }
